@@ -34,6 +34,33 @@ def replaySel (j : Json) : R Verdict := do
   | some d => return { case, kind := "DISAGREE", what := d, tags, size := n }
   | none => return { case, kind := "ok", tags, size := n }
 
+/-- K-sel on an operator: presence of an optional inherited by rank selection (one absent parent at `noneRank`) -/
+def replaySelOpt (j : Json) : R Verdict := do
+  let case ← asNat (fieldD j "case")
+  let p := mkRat (← asNat (← field j "pNum")) (← asNat (← field j "pDen"))
+  let n ← asNat (← field j "n")
+  let draws ← asNat (← field j "draws")
+  let r ← asNat (← field j "noneRank")
+  let c ← asNat (← field j "noneCount")
+  let tags := [s!"selopt:rank={if r == 0 then "first" else if r + 1 == n then "last" else "mid"}",
+               s!"sel:p={if p == 0 then "0" else if p == 1 then "1" else "mid"}"]
+  if n < 2 || r ≥ n || c > draws then return { case, kind := "ERROR", what := "malformed selopt line", tags }
+  let q := (Sel.selDist p n).getD r 0
+  let e : Rat := draws * (mkRat 1 n)
+  let farFromUniform := !(Sel.cellOk draws c (mkRat 1 n))
+  -- the property's own clause: the probability of picking rank i never increases with i, so the worst-ranked parent
+  -- is picked with probability at most 1/n and the best-ranked one with probability at least 1/n
+  if r + 1 == n && farFromUniform && decide ((c : Rat) > e) then
+    let w := s!"presence of an optional inherited by rank selection: the WORST of {n} parents was followed {c} times in {draws} recombinations (pressure {p}), significantly more than 1/{n}: better ranks are not favoured"
+    return { case, kind := "PROPFAIL", props := ["C17"], tags, size := n, what := w, fails := ["C17: " ++ w] }
+  if r == 0 && farFromUniform && decide ((c : Rat) < e) then
+    let w := s!"presence of an optional inherited by rank selection: the BEST of {n} parents was followed only {c} times in {draws} recombinations (pressure {p}), significantly less than 1/{n}: better ranks are not favoured"
+    return { case, kind := "PROPFAIL", props := ["C17"], tags, size := n, what := w, fails := ["C17: " ++ w] }
+  if !(Sel.cellOk draws c q) then
+    return { case, kind := "DISAGREE", tags, size := n,
+             what := s!"optional presence: the parent at rank {r} of {n} was followed {c} times in {draws}, outside the 6-sigma band of the model's selection probability" }
+  return { case, kind := "ok", tags, size := n }
+
 def interAll : List (List (List String)) → List (List String)
   | [] => []
   | a :: r => r.foldl (fun acc l => acc.filter (l.contains ·)) a
@@ -151,7 +178,8 @@ def replayTwin (j : Json) : R Verdict := do
     let w := s!"C09: two runs with identical inputs in one process differ: {(fieldD j "diffInProcess").compress}"
     return { case, kind := "PROPFAIL", props := ["C09"], what := w, tags, size := n, fails := [w] }
   if !b then
-    let w := s!"C09: the same run in a fresh process differs: {(fieldD j "diffCrossProcess").compress}"
+    let pin := if (fieldD j "crossProcessPinnedToOneCpu").getBool?.toOption == some true then " restricted to one CPU" else ""
+    let w := s!"C09: the same run in a fresh process{pin} differs: {(fieldD j "diffCrossProcess").compress}"
     return { case, kind := "PROPFAIL", props := ["C09"], what := w, tags, size := n, fails := [w] }
   if (fieldD j "sameGuessOrNot").getBool?.toOption == some false then
     let w := s!"C11: supplying the spec's own initial value as the guess does not give the same run as supplying none: {(fieldD j "diffGuessOrNot").compress}"
